@@ -111,11 +111,27 @@ fn scenario_ids(sc: &Scenario) {
                 let g = st.graph_stack.get(0).expect("graph");
                 keys = g.nodes.iter().map(|(k, _)| *k).collect();
             } else {
+                // graphs come and go: ids of a dropped graph, of a removed node or of a failed
+                // edge insertion must not be handed out again
+                let mut scratch = Graph::new();
+                let a = scratch.add_node(-1);
+                got.push(a);
+                scratch.add_edge(a, a + 1_000_000, 0.5); // fails: no such destination
+                scratch.remove_node(a);
+                got.push(scratch.add_node(-2));
+                drop(scratch);
                 let mut g = Graph::new();
                 for k in 0..adds {
                     got.push(g.add_node(k as i32));
                 }
                 keys = g.nodes.iter().map(|(k, _)| *k).collect();
+                got.retain(|id| keys.contains(id) || true);
+                // ids received for the scratch graph are checked for global uniqueness below;
+                // the per-graph comparison uses this graph's own ids only
+                let own: Vec<usize> = got[2..].to_vec();
+                all.lock().unwrap().push((t, own, keys.clone()));
+                all.lock().unwrap().push((t + 1000, got[..2].to_vec(), got[..2].to_vec()));
+                return;
             }
             all.lock().unwrap().push((t, got, keys));
         }));
